@@ -181,7 +181,8 @@ def main(path):
         old = copy.deepcopy(state)
         pre = copy.deepcopy(state)
         bindings = dict(args)
-        bindings.update({'old': old, 's': state, 'K': K, 'a': a, 'integral': model.get('chips', 'int') == 'int'})
+        bindings.update({'old': old, 's': state, 'K': K, 'a': a, 'integral': model.get('chips', 'int') == 'int',
+                         'warnings_are_errors': warn_err})
         kind, meta = ob['kind'], ob['meta']
         path_kind = meta.get('path', 'normal')
         if K is not None and hasattr(K, 'requires'):
